@@ -8,7 +8,8 @@ Arguments: toggle names (f1 f3 f14 f31 f32) switch the model from as-is to repai
 `nof2` / `nof16` switch it back to the code before the fixes of F2 / F16 (historical); `desc` / `tape=1,0,2` choose the order of the two hash-set walks (Toggles.desc, .tape);
 `msg` appends the model's error message to crash lines;
 `core` runs the core model (QbiceVerif.Model.EngineCore) instead, answering "skip" for cases
-outside its fragment.  `cyc` runs the fresh-evaluation cycle model (QbiceVerif.Model.Cycle, the one
+outside its fragment (input / normal / external nodes, ordered reads and unordered groups, `set` /
+`refresh` / `world` writes; firewalls and projections are outside).  `cyc` runs the fresh-evaluation cycle model (QbiceVerif.Model.Cycle, the one
 the C06 theorems are about): it answers the first session of a case and every round up to the
 second session (single-epoch evaluation from the empty store) and "skip" afterwards.
 -/
@@ -80,6 +81,30 @@ def Expr.hasUnordered : Expr → Bool
   | .sumAll _ => true
   | .add a b => a.hasUnordered || b.hasUnordered
   | .ifEq e _ a b => e.hasUnordered || a.hasUnordered || b.hasUnordered
+  | _ => false
+
+/-- reads a query (single or in an unordered group) -/
+def Expr.hasRead : Expr → Bool
+  | .read _ => true
+  | .sumAll _ => true
+  | .add a b => a.hasRead || b.hasRead
+  | .ifEq e _ a b => e.hasRead || a.hasRead || b.hasRead
+  | _ => false
+
+/-- reads a world cell -/
+def Expr.hasWorld : Expr → Bool
+  | .world _ => true
+  | .add a b => a.hasWorld || b.hasWorld
+  | .ifEq e _ a b => e.hasWorld || a.hasWorld || b.hasWorld
+  | _ => false
+
+/-- the fragment of the core model: inputs; normal executors that read queries only; external
+    executors that read world cells only -/
+def coreFragment (kind : Kind) (e : Expr) : Bool :=
+  match kind with
+  | .input => true
+  | .normal => !e.hasWorld
+  | .external => !e.hasRead
   | _ => false
 
 def parseKind : String → Option Kind
@@ -159,7 +184,17 @@ def stepFull (t : Toggles) (msg : Bool) (d : DS) (toks : List String) : DS × St
       | (.error e, st) => (d, showErr msg e ++ (if st.choicePoints > 0 then " ~" else ""))
   | _ => (d, "bad-op")
 
-/-- the core model answers only for programs of input/normal nodes without unordered groups -/
+def coreWrite : Write → Qbice.Core.Write
+  | .set k v => .set k v
+  | .refresh => .refresh
+  | .world k v => .world k v
+
+def showCoreSetRes : Qbice.Core.SetRes → String
+  | .fresh => "Fresh" | .updated => "Updated" | .unchanged => "Unchanged"
+  | .refreshed => "refreshed" | .world => "world"
+
+/-- the core model answers for programs of input / normal / external nodes (`coreFragment`); the
+    executor invocations of cases with unordered groups are printed as `X` (as the harness does) -/
 def stepCore (d : DS) (toks : List String) : DS × String :=
   match toks with
   | "case" :: _ => ({ unordered := toks.contains "unordered" }, "case")
@@ -167,21 +202,17 @@ def stepCore (d : DS) (toks : List String) : DS × String :=
     match k.toNat?, parseKind kind, dflt.toInt?, parseExpr rest with
     | some k, some kind, some dflt, some (e, []) =>
       if k != d.prog.length then (d, "bad-op") else
-      let inFrag := (kind == .input || kind == .normal) && !e.hasUnordered
       ({ d with prog := d.prog ++ [{ kind := kind, dflt := dflt, prog := e.toProg .ret }], exprs := d.exprs ++ [e],
-                coreOk := d.coreOk && inFrag }, "ok")
+                coreOk := d.coreOk && coreFragment kind e }, "ok")
     | _, _, _, _ => (d, "bad-op")
   | "session" :: rest =>
     if !d.coreOk then (d, "skip") else
     match parseWrites rest with
     | none => (d, "bad-op")
     | some ws =>
-      let sets := ws.filterMap fun | .set k v => some (k, v) | _ => none
-      if sets.length != ws.length then ({ d with coreOk := false }, "skip") else
       let cp := Qbice.Core.ofProgram d.prog
-      match Qbice.Core.session cp sets { d.cst with log := [] } with
-      | .ok (rs, st) => ({ d with cst := st }, " ".intercalate (rs.map fun
-          | .fresh => "Fresh" | .updated => "Updated" | .unchanged => "Unchanged") ++ " |" ++ execsStr false st.log)
+      match Qbice.Core.session cp (ws.map coreWrite) { d.cst with log := [] } with
+      | .ok (rs, st) => ({ d with cst := st }, " ".intercalate (rs.map showCoreSetRes) ++ " |" ++ execsStr d.unordered st.log)
       | .error e => (d, "error " ++ toString (repr e))
   | "round" :: rest =>
     if !d.coreOk then (d, "skip") else
@@ -190,7 +221,7 @@ def stepCore (d : DS) (toks : List String) : DS × String :=
     | some ks =>
       let cp := Qbice.Core.ofProgram d.prog
       match Qbice.Core.round cp (Qbice.Core.fuelFor cp) ks { d.cst with log := [] } with
-      | .ok (vs, st) => ({ d with cst := st }, " ".intercalate (vs.map toString) ++ " |" ++ execsStr false st.log)
+      | .ok (vs, st) => ({ d with cst := st }, " ".intercalate (vs.map toString) ++ " |" ++ execsStr d.unordered st.log)
       | .error e => (d, "error " ++ toString (repr e))
   | _ => (d, "bad-op")
 
